@@ -38,4 +38,15 @@ PROPS = {
             "rand.Float64() lies in [0,1)",
         ],
     },
+    "C11": {
+        "lean_modules": ["JrpcProofs.Props.C11", "JrpcProofs.Facts.Errors"],
+        "assumptions": [
+            "the application's error types are parameters: Error/MarshalJSON/UnmarshalJSON/ToJSONRPCError/FromJSONRPCError are evaluated by the harness on the real types and handed to the model as tables",
+            "encoding/json transports message strings (valid UTF-8) faithfully",
+        ],
+    },
+    "C13": {
+        "lean_modules": ["JrpcProofs.Props.C13", "JrpcProofs.Facts.Recover"],
+        "assumptions": ["net/http recovers per request on its own; the library-side guarantee is doCall's recover", "the server runs in a child process; crash = the child exits"],
+    },
 }
